@@ -367,3 +367,50 @@ theorem step_follows_next {s t : LSys} (h : LStep s t) :
     · intro q hq; cases ph <;> simp [getElem?_setPh, Ne.symm hq]
 
 end Ergo.LockFile
+
+namespace Ergo.LockFile
+
+/-! ### the abstraction to `Proc`'s one lock: `holds s p` ⇔ the abstract `holder = some p` -/
+
+/-- what a step does to "who is inside": nothing, or one process enters an empty section (the guard of `Proc.Step.lockOk`), or the one
+    inside leaves (unlock, or its death: `Proc.Step.unlockOk` / `crash`) — and a refused flock (`lockBusy`) happens only while somebody is inside -/
+theorem step_abstracts {s t : LSys} (hI : Inv s) (h : LStep s t) :
+    (∀ p, t.inside p ↔ s.inside p) ∨
+    (∃ p, (∀ q, ¬ s.inside q) ∧ t.inside p ∧ ∀ q, t.inside q → q = p) ∨
+    (∃ p, s.inside p ∧ ∀ q, ¬ t.inside q) := by
+  have hI' := inv_step hI h
+  -- classify by what happened to the one process that moved
+  obtain ⟨p, ph, ph', hp, hp', hrest, hkind⟩ := step_follows_next h
+  have other : ∀ q, q ≠ p → (t.inside q ↔ s.inside q) := by
+    intro q hq; unfold LSys.inside; rw [hrest q hq]
+  by_cases hin : s.inside p
+  · by_cases hin' : t.inside p
+    · left; intro q
+      by_cases hq : q = p
+      · subst hq; exact ⟨fun _ => hin, fun _ => hin'⟩
+      · exact other q hq
+    · right; right
+      refine ⟨p, hin, ?_⟩
+      intro q hq
+      by_cases hqp : q = p
+      · subst hqp; exact hin' hq
+      · exact hqp (exclusive hI ((other q hqp).mp hq) hin)
+  · by_cases hin' : t.inside p
+    · right; left
+      refine ⟨p, ?_, hin', fun q hq => exclusive hI' hq hin'⟩
+      -- p entered: it held a descriptor and the flock was free, so nobody was inside
+      intro q hq
+      by_cases hqp : q = p
+      · subst hqp; exact hin hq
+      · have hqt : t.inside q := (other q hqp).mpr hq
+        exact hqp (exclusive hI' hqt hin')
+    · left; intro q
+      by_cases hq : q = p
+      · subst hq; exact ⟨fun h' => absurd h' hin', fun h' => absurd h' hin⟩
+      · exact other q hq
+
+/-- a flock refused as busy: somebody else is inside at that moment -/
+theorem busy_means_somebody_inside {s : LSys} (hI : Inv s) {p i q : Nat} (_hp : s.procs[p]? = some (.opened i)) (hq : s.holder i = some q) :
+    s.inside q := ⟨i, (hI.held i q).mp hq⟩
+
+end Ergo.LockFile
